@@ -3,6 +3,8 @@ C01 — Fitness comparison and Pareto dominance follow the weighted values.
 Property theorems only; the model is `DeapModel/Core/Fitness.lean`.
 -/
 import DeapModel.Core.Fitness
+import DeapModel.Core.FitClass
+import DeapModel.Lemmas.C01Class
 import Mathlib.Order.Defs.LinearOrder
 import Mathlib.Algebra.Order.Field.Basic
 import Mathlib.Data.List.Lex
@@ -488,6 +490,240 @@ end MonotoneImage
 example : lt (mapFit (fun x : Int => 2 * x + 1) ⟨[3, -5]⟩) (mapFit (fun x : Int => 2 * x + 1) ⟨[3, -2]⟩) = true := by decide
 
 example : dominatesLoop ([3, -2] : List Int) [3, -5] false = true ∧ lt (⟨[3, -5]⟩ : Fit Int) ⟨[3, -2]⟩ = true := by decide
+
+
+/-! ### Families of related fitness classes: attribute lookup, class isolation, read-back in a hierarchy
+
+`Core/FitClass.lean` makes the per-class state explicit: a class is its own `weights` entry (or none) and its
+parent; `lookupWeights` is Python's attribute lookup along the MRO; a `World` holds the class table and the
+caller's fitness objects, `wstep` / `wrun` run a caller's history of operations on it. -/
+
+section Lookup
+variable {α : Type}
+
+/-- A class that declares `weights` resolves to its own declaration, whatever its ancestors declare. -/
+theorem resolve_own (tbl : ClassTable α) (c : Nat) (w : List α) (p : Option Nat)
+    (h : tbl[c]? = some ⟨some w, p⟩) : lookupWeights tbl c = some w :=
+  lookupWeights_own tbl c w p h
+
+/-- A class that declares no `weights` resolves to what its parent resolves to (inheritance, any depth). -/
+theorem resolve_inherited (tbl : ClassTable α) (h : TableWF tbl) (c p : Nat)
+    (hc : tbl[c]? = some ⟨none, some p⟩) : lookupWeights tbl c = lookupWeights tbl p :=
+  lookupWeights_inherit tbl h c p hc
+
+/-- Creating further classes (children, siblings, unrelated ones) never changes what an existing class resolves to. -/
+theorem resolve_stable (tbl ext : ClassTable α) (h : TableWF tbl) (c : Nat) (hc : c < tbl.length) :
+    lookupWeights (tbl ++ ext) c = lookupWeights tbl c :=
+  lookupWeights_append tbl ext h c hc
+
+end Lookup
+
+example : TableWF ([⟨some [1], none⟩, ⟨none, some 0⟩, ⟨some [-1], some 1⟩] : ClassTable Int) ∧
+    lookupWeights ([⟨some [1], none⟩, ⟨none, some 0⟩, ⟨some [-1], some 1⟩] : ClassTable Int) 1 = some [1] ∧
+    lookupWeights ([⟨some [1], none⟩, ⟨none, some 0⟩, ⟨some [-1], some 1⟩] : ClassTable Int) 2 = some [-1] ∧
+    lookupWeights ([⟨none, none⟩, ⟨none, some 0⟩] : ClassTable Int) 1 = none := by
+  refine ⟨?_, by decide, by decide, by decide⟩
+  intro c k hc p hp
+  match c, hc with
+  | 0, hc => simp at hc; subst hc; simp at hp
+  | 1, hc => simp at hc; subst hc; simp at hp; omega
+  | 2, hc => simp at hc; subst hc; simp at hp; omega
+  | n + 3, hc => simp at hc
+
+section Isolation
+variable {α : Type} [LT α] [LE α] [DecidableEq α] [DecidableLT α] [DecidableLE α] [Mul α] [Div α]
+
+/-- Every world a caller can reach from the empty one is well-formed (parents exist before their children, every
+object's class exists): the hypothesis `WorldWF` of the theorems below is met by every history. -/
+theorem wf_reachable (ops : List (WOp α)) : WorldWF (wrun (World.empty : World α) ops).1 :=
+  wrun_wf _ ops worldWF_empty
+
+/-- CLASS ISOLATION.  The result of an operation on fitness objects — what the caller observes and the state left in
+the variables it touched — depends only on each object's OWN weighted values and on the weights its OWN class resolves
+to (`World.view`).  It is the same in two arbitrary worlds that agree on those views, after two arbitrary histories
+`pre`, `pre'` of operations on OTHER variables: assignments, read-backs (in any order of first use), comparisons,
+clones, deletions on instances of the same class, of its ancestors and descendants, creation of new classes and
+objects.  Nothing done to another class or instance can change a read-back, a comparison, a dominance test or a
+clone. -/
+theorem class_isolation (W W' : World α) (hW : WorldWF W) (hW' : WorldWF W') (pre pre' : List (WOp α))
+    (o : WOp α) (S : List Nat) (hS : o.reads = some S)
+    (hpre : ∀ p ∈ pre, ∀ s ∈ S, p.writes ≠ some s) (hpre' : ∀ p ∈ pre', ∀ s ∈ S, p.writes ≠ some s)
+    (hview : ∀ s ∈ S, W.view s = W'.view s) :
+    (wstep (wrun W pre).1 o).2 = (wstep (wrun W' pre').1 o).2 ∧
+    ∀ s, (s ∈ S ∨ (o.writes = some s ∧ (wstep (wrun W pre).1 o).2 ≠ Out.err)) →
+      (wstep (wrun W pre).1 o).1.view s = (wstep (wrun W' pre').1 o).1.view s := by
+  apply step_congr _ _ o S hS
+  intro s hs
+  rw [wrun_view_frame W pre s hW (fun p hp => hpre p hp s hs),
+    wrun_view_frame W' pre' s hW' (fun p hp => hpre' p hp s hs)]
+  exact hview s hs
+
+/-- The single-world reading: a history on other variables changes no result on these. -/
+theorem class_isolation_history (W : World α) (hW : WorldWF W) (pre : List (WOp α)) (o : WOp α) (S : List Nat)
+    (hS : o.reads = some S) (hpre : ∀ p ∈ pre, ∀ s ∈ S, p.writes ≠ some s) :
+    (wstep (wrun W pre).1 o).2 = (wstep W o).2 :=
+  (class_isolation W W hW hW pre [] o S hS hpre (by simp) (fun _ _ => rfl)).1
+
+end Isolation
+
+/-- a world with a parent class (weights 1) and a child overriding them (weights -1), one object of each -/
+def exWorld : World Int := (wrun (World.empty : World Int)
+  [.defclass ⟨some [1], none⟩, .defclass ⟨some [-1], some 0⟩, .new 0 0 ⟨.tuple, [3]⟩, .new 1 1 ⟨.list, [5]⟩]).1
+
+/-- a world with ONE flat class of weights -1 and an object carrying the same weighted values in variable 1 -/
+def exFlat : World Int := (wrun (World.empty : World Int)
+  [.defclass ⟨some [-1], none⟩, .new 1 0 ⟨.ndarray, [5]⟩, .new 4 0 ⟨.tuple, []⟩]).1
+
+/-- the hypotheses of `class_isolation_history` are met: the parent's object is read, re-assigned, cloned and the clone
+deleted; reading the child's object afterwards answers what it answers at once -/
+example : (wstep (wrun exWorld [.get 0, .set 0 ⟨.tuple, [4]⟩, .clone 0 2, .del 2, .defclass ⟨none, some 1⟩]).1 (.get 1)).2 =
+    (wstep exWorld (.get 1)).2 ∧ (wstep exWorld (.get 1)).2 = Out.values [-5] [5] true :=
+  ⟨class_isolation_history exWorld (wf_reachable _) _ (.get 1) [1] rfl (by simp [WOp.writes]), by decide⟩
+
+/-- the hypotheses of `class_isolation` are met by two different worlds (a derived class under a parent that is used in
+between / a flat class): equal views of variable 1, equal answers -/
+example : (wstep (wrun exWorld [.get 0, .str 0, .cmp 0 0]).1 (.get 1)).2 =
+    (wstep (wrun exFlat [.set 4 ⟨.tuple, [9]⟩, .get 4]).1 (.get 1)).2 :=
+  (class_isolation exWorld exFlat (wf_reachable _) (wf_reachable _) _ _ (.get 1) [1] rfl
+    (by simp [WOp.writes]) (by simp [WOp.writes]) (by intro s hs; simp at hs; subst hs; decide)).1
+
+section ReadbackHierarchy
+variable {α : Type} [Field α] [LinearOrder α] [IsStrictOrderedRing α]
+
+/-- Read-back for a class that RESOLVES to non-zero weights `w` (declared by itself or inherited): after
+`slot.values = vals` and any history on other variables, `slot.values` is `vals`, `slot.wvalues` the products,
+and the fitness is valid. -/
+theorem readback_resolved (W : World α) (hW : WorldWF W) (slot : Nat) (x : Inst α) (hx : W.insts slot = some x)
+    (w : List α) (hres : lookupWeights W.classes x.cls = some w) (hnz : ∀ u ∈ w, u ≠ 0)
+    (box : Box) (vals : List α) (hlen : vals.length = w.length)
+    (others : List (WOp α)) (hoth : ∀ o ∈ others, o.writes ≠ some slot) :
+    (wstep (wrun (wstep W (.set slot ⟨box, vals⟩)).1 others).1 (.get slot)).2 =
+      Out.values (List.zipWith (· * ·) vals w) vals (vals.length != 0) := by
+  have hset : setValues w vals = some ⟨List.zipWith (· * ·) vals w⟩ := by simp [setValues, hlen]
+  have hstep : (wstep W (.set slot ⟨box, vals⟩)).1 = W.put slot ⟨x.cls, ⟨List.zipWith (· * ·) vals w⟩⟩ := by
+    simp only [wstep, hx, hres, hset]
+  have hwf : WorldWF (wstep W (.set slot ⟨box, vals⟩)).1 := wstep_wf W _ hW
+  have hview : (wrun (wstep W (.set slot ⟨box, vals⟩)).1 others).1.view slot =
+      some (List.zipWith (· * ·) vals w, some w) := by
+    rw [wrun_view_frame _ others slot hwf hoth, hstep, put_view_self]
+    simp only [hres]
+  rw [get_of_view _ slot _ w hview]
+  have hrt := values_roundtrip w vals hlen hnz
+  simp only [hset, Option.map_some, Option.some.injEq] at hrt
+  rw [hrt]
+  simp [valid, hlen]
+
+/-- READ-BACK IN A HIERARCHY.  For a class that declares weights `w` of +1/−1 itself — whatever parent `p` it has and
+whatever that parent and the further ancestors declare — values assigned to an instance are read back unchanged,
+after any history of operations on other variables (ancestors' and descendants' instances read first or not). -/
+theorem readback_hierarchy (W : World α) (hW : WorldWF W) (slot : Nat) (x : Inst α) (hx : W.insts slot = some x)
+    (w : List α) (p : Option Nat) (hcls : W.classes[x.cls]? = some ⟨some w, p⟩)
+    (hunit : ∀ u ∈ w, u = 1 ∨ u = -1)
+    (box : Box) (vals : List α) (hlen : vals.length = w.length)
+    (others : List (WOp α)) (hoth : ∀ o ∈ others, o.writes ≠ some slot) :
+    (wstep (wrun (wstep W (.set slot ⟨box, vals⟩)).1 others).1 (.get slot)).2 =
+      Out.values (List.zipWith (· * ·) vals w) vals (vals.length != 0) := by
+  refine readback_resolved W hW slot x hx w (resolve_own _ _ w p hcls) ?_ box vals hlen others hoth
+  intro u hu
+  rcases hunit u hu with rfl | rfl
+  · exact one_ne_zero
+  · exact neg_ne_zero.2 one_ne_zero
+
+end ReadbackHierarchy
+
+/-- the hypotheses are met: a child declaring (-1) under a parent declaring (1); the conclusion then holds for a
+history that uses the parent in between -/
+example : ∃ (W : World ℚ) (x : Inst ℚ), WorldWF W ∧ W.insts 1 = some x ∧
+    W.classes[x.cls]? = some ⟨some [-1], some 0⟩ ∧ (∀ u ∈ ([-1] : List ℚ), u = 1 ∨ u = -1) ∧
+    (wstep (wrun (wstep W (.set 1 ⟨.tuple, [7]⟩)).1 [.get 0, .set 0 ⟨.list, [2]⟩, .get 0]).1 (.get 1)).2 =
+      Out.values (List.zipWith (· * ·) [7] [-1]) [7] true := by
+  refine ⟨(wrun (World.empty : World ℚ) [.defclass ⟨some [1], none⟩, .defclass ⟨some [-1], some 0⟩,
+      .new 0 0 ⟨.tuple, []⟩, .new 1 1 ⟨.tuple, []⟩]).1, ⟨1, ⟨[]⟩⟩, wf_reachable _, rfl, rfl, by simp, ?_⟩
+  exact readback_hierarchy _ (wf_reachable _) 1 ⟨1, ⟨[]⟩⟩ rfl [-1] (some 0) rfl (by simp) .tuple [7] rfl _
+    (by simp [WOp.writes])
+
+/-- `readback_resolved` with INHERITED weights: class 2 declares nothing and resolves to class 1's (-1) -/
+example : ∃ (W : World ℚ) (x : Inst ℚ), WorldWF W ∧ W.insts 2 = some x ∧ lookupWeights W.classes x.cls = some [-1] ∧
+    (wstep (wrun (wstep W (.set 2 ⟨.list, [7]⟩)).1 [.get 0, .get 1]).1 (.get 2)).2 =
+      Out.values (List.zipWith (· * ·) [7] [-1]) [7] true := by
+  refine ⟨(wrun (World.empty : World ℚ) [.defclass ⟨some [1], none⟩, .defclass ⟨some [-1], some 0⟩,
+      .defclass ⟨none, some 1⟩, .new 0 0 ⟨.tuple, []⟩, .new 1 1 ⟨.tuple, []⟩, .new 2 2 ⟨.tuple, []⟩]).1,
+    ⟨2, ⟨[]⟩⟩, wf_reachable _, rfl, rfl, ?_⟩
+  exact readback_resolved _ (wf_reachable _) 2 ⟨2, ⟨[]⟩⟩ rfl [-1] rfl (by simp) .list [7] rfl _ (by simp [WOp.writes])
+
+/-! ### The constructor, `__str__`, `__hash__` -/
+
+section Ctor
+variable {α : Type} [Mul α]
+
+/-- `Fitness(values)` is valid exactly when the container handed over is non-empty (`len(values) > 0`), for every
+container kind. -/
+theorem init_valid_iff (weights : List α) (hw : weights ≠ []) (a : Arg α) (f : Fit α)
+    (h : init weights a = some f) : valid f = true ↔ a.items ≠ [] := by
+  unfold init Arg.len at h
+  by_cases hpos : a.items.length > 0
+  · simp only [hpos, ↓reduceIte, setValues] at h
+    by_cases hl : a.items.length = weights.length
+    · simp only [hl, ↓reduceIte, Option.some.injEq] at h
+      subst h
+      have hwl : weights.length ≠ 0 := by simpa using hw
+      have hne : a.items ≠ [] := by intro e; simp [e] at hpos
+      simp [valid, hl, hwl, hne]
+    · simp [hl] at h
+  · simp only [hpos, ↓reduceIte, Option.some.injEq] at h
+    subst h
+    have : a.items = [] := by
+      cases hi : a.items with
+      | nil => rfl
+      | cons _ _ => simp [hi] at hpos
+    simp [valid, this]
+
+/-- The constructor looks at the length and the items only: the container kind is irrelevant. -/
+theorem init_ignores_container (weights : List α) (b b' : Box) (items : List α) :
+    init weights ⟨b, items⟩ = init weights ⟨b', items⟩ := rfl
+
+end Ctor
+
+example : init ([1, -1] : List Int) ⟨.ndarray, [3, 4]⟩ = some ⟨[3, -4]⟩ ∧
+    init ([1, -1] : List Int) ⟨.deque, []⟩ = some ⟨[]⟩ ∧ init ([1, -1] : List Int) ⟨.list, [3]⟩ = none := by decide
+
+section CtorArray
+variable {α : Type} [Field α] [DecidableEq α]
+
+/-- A falsy but non-empty numpy array (`bool(numpy.array([0.0]))` is `False`) is still assigned: the fitness built
+from it is valid and carries the weighted value `0 * w`. -/
+theorem init_falsy_array (w : α) :
+    (⟨.ndarray, [0]⟩ : Arg α).truthy = some false ∧
+    init [w] ⟨.ndarray, [0]⟩ = some ⟨[0 * w]⟩ ∧ valid (⟨[0 * w]⟩ : Fit α) = true := by
+  refine ⟨by simp [Arg.truthy], by simp [init, Arg.len, setValues], by simp [valid]⟩
+
+end CtorArray
+
+section StrHash
+variable {α : Type}
+
+/-- `str(fitness)` shows exactly `fitness.values` (an unevaluated fitness shows the empty tuple, which is its `values`). -/
+theorem str_eq_values [Div α] (weights : List α) (f : Fit α) : strValues weights f = getValues weights f := by
+  unfold strValues
+  by_cases h : valid f = true
+  · simp [h]
+  · have : f.wvalues = [] := by
+      simp only [valid, bne_iff_ne, ne_eq, Decidable.not_not, List.length_eq_zero_iff] at h; exact h
+    simp [h, getValues, this]
+
+/-- Fitnesses that compare equal hash equal, for every tuple hash `h` (what `sortNondominated`'s grouping of
+individuals by fitness in a `dict` relies on). -/
+theorem eq_imp_hash_eq [DecidableEq α] {β : Type} (h : List α → β) (a b : Fit α) (hab : Fitness.eq a b = true) :
+    hashWith h a = hashWith h b := by
+  simp only [Fitness.eq, Py.tupleEq, decide_eq_true_eq] at hab
+  simp [hashWith, hab]
+
+/-- A clone hashes like its original. -/
+theorem clone_hash_eq {β : Type} (h : List α → β) (f : Fit α) : hashWith h (deepcopy f) = hashWith h f := rfl
+
+end StrHash
+
+example : Fitness.eq (⟨[3, -4]⟩ : Fit Int) ⟨[3, -4]⟩ = true := by decide
 
 /-! ### Non-vacuity: concrete instances of the hypotheses above -/
 
